@@ -18,8 +18,10 @@ value that makes the body raise.  A failure seen only with a subclassed
 functor (the same case passes with `pg.functor` of the same signature) gets
 the id prefix `subclassed-functor.`; otherwise the prefix is `functor.`.
 """
+import copy
 import inspect
 import itertools
+import re
 import sys
 import types
 
@@ -38,10 +40,11 @@ POS = ['a', 'b', 'c']
 class Sig:
   """One signature shape."""
 
-  def __init__(self, n, ndef, va, kwo, vk, annotated=False, dflavor='int'):
+  def __init__(self, n, ndef, va, kwo, vk, annotated=False, dflavor='int', npo=0):
     self.n, self.ndef, self.va, self.kwo, self.vk = n, ndef, va, tuple(kwo), vk
     self.annotated = annotated
     self.dflavor = dflavor          # 'int' | 'None' | 'falsy': what the defaults are
+    self.npo = npo                  # the first npo positional parameters are positional-only
     self.pos = POS[:n]
     self.kwonly = [f'k{j + 1}' for j in range(len(kwo))]
     self.names = self.pos + self.kwonly
@@ -52,25 +55,33 @@ class Sig:
     for j, d in enumerate(kwo):
       if d:
         self.defaults[f'k{j + 1}'] = self._default(n + j, -(10 + j))
-    ann = ': int' if annotated else ''
-    parts = []
-    for nm in self.pos:
-      parts.append(f'{nm}{ann}' + (f'={self.defaults[nm]!r}' if nm in self.defaults else ''))
-    if va:
-      parts.append(f'*args{ann}')
-    elif kwo:
-      parts.append('*')
-    for nm in self.kwonly:
-      parts.append(f'{nm}{ann}' + (f'={self.defaults[nm]!r}' if nm in self.defaults else ''))
-    if vk:
-      parts.append(f'**kw{ann}')
-    self.params = ', '.join(parts)
+    self.params = self.params_src()
     ret = (['"r"'] + self.pos + (['tuple(args)'] if va else []) + self.kwonly
            + (['tuple(sorted(kw.items()))'] if vk else []))
     self.ret = '(' + ', '.join(ret) + ',)'
-    self.id = (f'n{n}d{ndef}' + ('v' if va else '') + 'k' + ''.join('d' if d else 'r' for d in kwo)
+    self.id = (f'n{n}d{ndef}' + (f'p{npo}' if npo else '') + ('v' if va else '') + 'k'
+               + ''.join('d' if d else 'r' for d in kwo)
                + ('w' if vk else '') + ('t' if annotated else '')
                + ('' if dflavor == 'int' else '~' + dflavor))
+
+  def params_src(self, dexpr=None, annotated=None):
+    """Parameter list source; dexpr(name) gives the source of a default (default: its literal)."""
+    dexpr = dexpr or (lambda nm: repr(self.defaults[nm]))
+    ann = ': int' if (self.annotated if annotated is None else annotated) else ''
+    parts = []
+    for i, nm in enumerate(self.pos):
+      parts.append(f'{nm}{ann}' + (f'={dexpr(nm)}' if nm in self.defaults else ''))
+      if i + 1 == self.npo:
+        parts.append('/')
+    if self.va:
+      parts.append(f'*args{ann}')
+    elif self.kwo:
+      parts.append('*')
+    for nm in self.kwonly:
+      parts.append(f'{nm}{ann}' + (f'={dexpr(nm)}' if nm in self.defaults else ''))
+    if self.vk:
+      parts.append(f'**kw{ann}')
+    return ', '.join(parts)
 
   def _default(self, idx, int_value):
     if self.dflavor == 'None':
@@ -81,12 +92,12 @@ class Sig:
 
   def ctor_src(self):
     return (f'm.Sig({self.n}, {self.ndef}, {self.va}, {self.kwo!r}, {self.vk}, '
-            f'{self.annotated}, {self.dflavor!r})')
+            f'{self.annotated}, {self.dflavor!r}, {self.npo})')
 
   def typed(self, annotated):
     if annotated == self.annotated:
       return self
-    return Sig(self.n, self.ndef, self.va, self.kwo, self.vk, annotated, self.dflavor)
+    return Sig(self.n, self.ndef, self.va, self.kwo, self.vk, annotated, self.dflavor, self.npo)
 
   # The body returns every argument it received; a string argument 'boom'
   # makes it raise ValueError (errors of the body must propagate unchanged).
@@ -545,7 +556,7 @@ def _witness(prelude, body):
   return full
 
 
-def _check_signature(rec, sig, kind, f, w, prelude):
+def _check_signature(rec, sig, kind, f, w, prelude, case_id=None):
   def norm(p):
     name = '**' if p.kind == p.VAR_KEYWORD and kind in SUBCLASS_KINDS else p.name
     return (name, p.kind, p.default)
@@ -555,7 +566,7 @@ def _check_signature(rec, sig, kind, f, w, prelude):
     msg = f'got {got!r}, want {want!r}'
   except Exception as e:  # pylint: disable=broad-except
     got, msg = None, f'{type(e).__name__}: {e}'
-  rec.case(f'{_family(kind)}.init-signature/{kind}', (sig.id, kind),
+  rec.case(case_id or f'{_family(kind)}.init-signature/{kind}', (sig.id, kind),
            ok=got is not None and len(got) == len(want) and all(same(x, y) for x, y in zip(got, want)),
            message=msg,
            witness=_witness(prelude, 'import inspect\n'
@@ -943,6 +954,35 @@ def _class_case(rec, s, kind, c, w, prelude, j, p, kws, vtag, a, k):
         witness=_witness(prelude, 'import bounded.c18_functor as m\n'
                          f'y = W.partial({_fmt_call((), k1)}); y.rebind({_fmt_call((), k2)})\n'
                          f'assert m.agree(m.call(lambda: F({argsrc}).r), m.call(lambda: y.r))\n'))
+  # one rebind whose paths mix an edit inside a bound container value with a whole argument.
+  slots = [s.pos[i] for i in range(min(len(a), s.n))] + [n for n in k if n in s.names]
+  if vtag == '' and not int_values_only(kind) and len(slots) >= 2 and j % 2 == 0:
+    cn, on = slots[(j // 2) % len(slots)], slots[(j // 2 + 1) % len(slots)]
+
+    def with_values(vals):
+      a5, k5 = list(a), dict(k)
+      for n, v in vals.items():
+        if n in k5:
+          k5[n] = v
+        else:
+          a5[s.pos.index(n)] = v
+      return tuple(a5), k5
+    a5, k5 = with_values({cn: {'x': 1, 'y': [2, 3]}})
+    a6, k6 = with_values({cn: {'x': 1, 'y': [91, 3]}, on: 92})
+    want5 = call(lambda: c(*a6, **k6).r)
+    for order, batch in (('edit-inside-first', {f'{cn}.y[0]': 91, on: 92}),
+                         ('whole-argument-first', {on: 92, f'{cn}.y[0]': 91})):
+      def mixed(batch=batch):
+        y = w(*a5, **k5)
+        y.rebind(batch)
+        return y.r
+      got5 = call(mixed)
+      allok &= rec.case(
+          f'class-wrapper.rebind-mixed-paths/{_vs(want5, got5)}', key + (order,), ok=agree(want5, got5),
+          message=f'{s.params}: y = W({_fmt_call(a5, k5)}); y.rebind({batch!r}); y.r -> {got5!r}, want {want5!r}',
+          witness=_witness(prelude, 'import bounded.c18_functor as m\n'
+                           f'y = W({_fmt_call(a5, k5)}); y.rebind({batch!r})\n'
+                           f'assert m.agree(m.call(lambda: F({_fmt_call(a6, k6)}).r), m.call(lambda: y.r))\n'))
   # an argument bound later: one keyword argument is given a new value after construction.
   if k and j % 2 == 1:
     nm = list(k)[j % len(k)]
@@ -968,20 +1008,57 @@ def _class_case(rec, s, kind, c, w, prelude, j, p, kws, vtag, a, k):
 # Histories: arguments bound, re-bound and un-bound after construction.
 # ---------------------------------------------------------------------------
 
+def _container(r, v):
+  """A JSON-able container value built from the int v (one of three shapes)."""
+  return [{'x': v, 'y': [v + 1, v + 2]}, [v, {'p': v + 1}], {'x': {'q': v}, 'w': v + 3}][r.randrange(3)]
+
+
+def _edit_points(value, suffix='', steps=()):
+  """[(path suffix, steps)]: every leaf inside a container, and one new key per dict."""
+  out = []
+  if isinstance(value, dict):
+    for k, v in value.items():
+      out += _edit_points(v, f'{suffix}.{k}', steps + (k,))
+    out.append((f'{suffix}.n', steps + ('n',)))
+  elif isinstance(value, list):
+    for i, v in enumerate(value):
+      out += _edit_points(v, f'{suffix}[{i}]', steps + (i,))
+  elif steps:
+    out.append((suffix, steps))
+  return out
+
+
+def _edited(value, steps, v):
+  """A deep copy of container `value` with the place `steps` set to v."""
+  value = copy.deepcopy(value)
+  at = value
+  for st in steps[:-1]:
+    at = at[st]
+  at[steps[-1]] = v
+  return value
+
+
 def _gen_history(r, s, kind):
   """A seeded history and the bound state Python semantics give it.
 
   Returns dict(lines, named, extras, varargs, ambiguous, ops, late=(a2, k2, override)).
   `ambiguous`: names assigned (after construction) a value equal to their
   default -- whether such a name counts as explicitly bound is not specified.
+
+  Operations: rebind(**several), attribute assignment, del, an edit *inside* a
+  bound container value (`x.a.y[0] = v`), and rebind({path: value, ...}) whose
+  paths mix edits inside bound values with whole arguments in a seeded order.
   """
   ints_only = int_values_only(kind)
   pool = s.names + (['z'] if s.vk else [])
+
+  def maybe_container(v):
+    return _container(r, v) if (not ints_only and r.random() < 0.25) else v
   p1 = r.randrange(s.n + 1) if r.random() < 0.5 else 0
-  a1 = tuple(100 + i for i in range(p1))
+  a1 = tuple(maybe_container(100 + i) for i in range(p1))
   if s.va and p1 == s.n and r.random() < 0.3:
-    a1 += (150, 151)
-  k1 = {n: 110 + t for t, n in enumerate(pool) if n not in s.pos[:p1] and r.random() < 0.4}
+    a1 += (maybe_container(150), 151)
+  k1 = {n: maybe_container(110 + t) for t, n in enumerate(pool) if n not in s.pos[:p1] and r.random() < 0.4}
   named = dict(zip(s.pos, a1[:s.n]))
   named.update({n: v for n, v in k1.items() if n != 'z'})
   extras = {n: v for n, v in k1.items() if n == 'z'}
@@ -1001,10 +1078,62 @@ def _gen_history(r, s, kind):
         v = 0 if ints_only else r.choice(FALSY)
       elif cls == 'None' and not ints_only:
         v = None
+    elif not ints_only and r.random() < 0.2:
+      v = _container(r, v)
     return v, (n in s.defaults and same(v, s.defaults[n]))
 
+  def assign_whole(upd, n, t, idx):
+    nonlocal varargs
+    if n == 'args':
+      upd[n] = [300 + 10 * t, 301 + 10 * t]
+      varargs = list(upd[n])
+      return
+    v, is_default = value(n, t, idx)
+    upd[n] = v
+    (extras if n == 'z' else named)[n] = v
+    (amb.add if is_default else amb.discard)(n)
+
+  def assign_inside(n, steps, v):
+    nonlocal varargs
+    if n == 'args':
+      varargs = _edited(varargs, steps, v)
+    elif n in named:
+      named[n] = _edited(named[n], steps, v)
+    else:
+      extras[n] = _edited(extras[n], steps, v)
+
   for t in range(r.choice((1, 1, 2, 2, 3))):
-    op = r.choice(('rebind', 'setattr', 'del', 'del'))
+    op = r.choice(('rebind', 'setattr', 'del', 'del', 'rebind-paths', 'nested-assign'))
+    if op in ('rebind-paths', 'nested-assign'):
+      holders = list(named.items()) + list(extras.items()) + ([('args', varargs)] if varargs else [])
+      points = [(n, sfx, st) for n, val in holders for sfx, st in _edit_points(val)]
+      if not points:
+        op = 'rebind' if op == 'rebind-paths' else 'setattr'
+      elif op == 'nested-assign':
+        n, sfx, st = r.choice(points)
+        v = 500 + 10 * t
+        lines.append(f'x.{n}{sfx} = {v!r}')
+        assign_inside(n, st, v)
+        ops.append('nested')
+        continue
+      else:
+        inside = r.sample(points, min(len(points), r.choice((1, 1, 2))))
+        touched = {n for n, _, _ in inside}
+        tops = [n for n in pool + (['args'] if s.va and r.random() < 0.3 else []) if n not in touched]
+        tops = r.sample(tops, min(len(tops), r.choice((0, 1, 1, 2))))
+        entries = [('in', e) for e in inside] + [('top', n) for n in tops]
+        r.shuffle(entries)
+        upd = {}
+        for idx, (what, e) in enumerate(entries):
+          if what == 'in':
+            n, sfx, st = e
+            upd[n + sfx] = 500 + 10 * t + idx
+            assign_inside(n, st, upd[n + sfx])
+          else:
+            assign_whole(upd, e, t, idx)
+        lines.append('x.rebind({' + ', '.join(f'{k!r}: {v!r}' for k, v in upd.items()) + '})')
+        ops.append('mixed-batch' if tops else 'nested')
+        continue
     if op == 'del':
       cands = sorted(named) + sorted(extras) + (['args'] if varargs else [])
       if not cands:
@@ -1028,14 +1157,7 @@ def _gen_history(r, s, kind):
       chosen = [n for n in targets if r.random() < 0.4] or [r.choice(targets)]
     upd = {}
     for idx, n in enumerate(chosen):
-      if n == 'args':
-        upd[n] = [300 + 10 * t, 301 + 10 * t]
-        varargs = list(upd[n])
-        continue
-      v, is_default = value(n, t, idx)
-      upd[n] = v
-      (extras if n == 'z' else named)[n] = v
-      (amb.add if is_default else amb.discard)(n)
+      assign_whole(upd, n, t, idx)
     ops.append(op)
     if op == 'setattr':
       lines += [f'x.{n} = {v!r}' for n, v in upd.items()]
@@ -1050,7 +1172,7 @@ def _gen_history(r, s, kind):
     k2[r.choice(sorted(k2))] = None
   override = r.random() < 0.5
   return dict(lines=lines, named=named, extras=extras, varargs=varargs, ambiguous=amb,
-              ops=[o for o in ('rebind', 'setattr', 'del') if o in ops],
+              ops=[o for o in ('rebind', 'setattr', 'nested', 'mixed-batch', 'del') if o in ops],
               late=(a2, k2, override), ctor_override=ctor_override)
 
 
@@ -1061,12 +1183,19 @@ def _op_class(s, line):
   if line.startswith('del '):
     n = line[6:]
     return 'del-' + ('varargs' if n == 'args' else 'named-argument' if n in s.names else 'extra-keyword')
+  if line.startswith('x.rebind({'):
+    return 'rebind-paths'
+  if re.match(r'x\.\w+[.\[][^=]*= ', line):
+    return 'edit-inside-bound-value'
   return ('rebind' if '.rebind(' in line else 'setattr') + ('-varargs' if 'args' in line else '')
 
 
 def _history_case(rec, s, kind, f, w, prelude, h, deep):
   lines, named, extras, varargs, amb = h['lines'], h['named'], h['extras'], h['varargs'], h['ambiguous']
-  opname = '+'.join((['assign'] if set(h['ops']) & {'rebind', 'setattr'} else []) + (['del'] if 'del' in h['ops'] else []))
+  opname = '+'.join((['assign'] if set(h['ops']) & {'rebind', 'setattr'} else [])
+                    + (['nested-edit'] if 'nested' in h['ops'] else [])
+                    + (['mixed-batch'] if 'mixed-batch' in h['ops'] else [])
+                    + (['del'] if 'del' in h['ops'] else []))
   body = '\n'.join(lines) + '\n'
   key = (s.id, kind, tuple(lines))
   hist = '; '.join(lines)
@@ -1197,6 +1326,34 @@ def drv_functor_late_binding(tier, seed):
     for j in range(0, nh, 3):
       unchecked_calls.append(mk_args(r.randrange(s.n + 1), [n for n in s.names[s.n:] if r.random() < 0.7]
                                      + (['z'] if r.random() < 0.3 else []), 10))
+
+    # An argument bound later while change notification is switched off.
+    quiet = []
+    for nm in _pick(s.names + (['z'] if s.vk else []), r, 2):
+      k1 = {n: 110 + t for t, n in enumerate(s.names) if n != nm and (n not in s.defaults or r.random() < 0.3)}
+      quiet.append((k1, nm, 777))
+
+    def routine_quiet(rc, s_, kind_, f, w, prelude, quiet=quiet):
+      for k1, nm, v in quiet:
+        named = dict(k1, **({nm: v} if nm != 'z' else {}))
+        want = merge_call(f, s_, named, {nm: v} if nm == 'z' else {}, None, (), {}, False)
+        if want is None:
+          continue
+        body = (f'x = W({_fmt_call((), k1)})\nwith pg.notify_on_change(False):\n'
+                f'  x.rebind({nm}={v!r})\n')
+
+        def quiet_rebind(body=body):
+          env = {'W': w, 'pg': pg}
+          exec(body, env)  # pylint: disable=exec-used
+          return env['x']()
+        got = call(quiet_rebind)
+        rc.case('functor.late-binding-under-notify_on_change(False)',
+                (s_.id, kind_, tuple(k1), nm), ok=agree(want, got),
+                message=(f'{s_.params}: x = W({_fmt_call((), k1)}); with pg.notify_on_change(False): '
+                         f'x.rebind({nm}={v!r}); x() -> {got!r}; Python semantics -> {want!r}'),
+                witness=_witness(prelude, 'import bounded.c18_functor as m\n' + body
+                                 + f'got = m.call(x)\nassert m.agree({want!r}, got), got\n'))
+    run_routine(rec, sig, kind, routine_quiet)
 
     def routine(rc, s_, kind_, f, w, prelude, hs=hs, unchecked_calls=unchecked_calls):
       for j, h in enumerate(hs):
@@ -1341,8 +1498,434 @@ def drv_functor_values_and_reentrancy(tier, seed):
   return rec.result()
 
 
+# ---------------------------------------------------------------------------
+# Keywords that are not named parameters; positional-only parameters.
+# ---------------------------------------------------------------------------
+
+def _sigclass(s):
+  return ','.join((['*args'] if s.va else []) + (['**kw'] if s.vk else [])) or 'neither'
+
+
+def _valid_shape(s, r):
+  """(a, k) of a call that supplies every required parameter (so Python accepts it)."""
+  p = r.randrange(s.npo, s.n + 1)
+  a = tuple(10 + i for i in range(p))
+  if s.va and p == s.n and r.random() < 0.4:
+    a += (18, 19)
+  k = {nm: 100 + t for t, nm in enumerate(s.names) if nm not in s.pos[:p]
+       and (nm not in s.defaults or r.random() < 0.5)}
+  return a, k
+
+
+COLLISION_VALUES = ([71, 72], 77, (73,), [], None)
+
+
+def _keyword_collisions(rec, s, kind, f, w, prelude, plan):
+  """plan: [(special keyword name, a, k, value)]; f(*a, **k) alone is a valid call."""
+  is_cls = kind in CLS_WRAPPERS
+  fam = 'class-wrapper' if is_cls else 'functor'
+  for name, a, k, v in plan:
+    what = {'args': 'varargs', 'kw': 'varkw'}[name]
+    base, extra = _fmt_call(a, k), f'{name}={v!r}'
+    both = (base + ', ' + extra).lstrip(', ')
+    kx = dict(k, **{name: v})
+    # W(..., args=[...]) is the symbolic spelling of binding *args (a JSON copy is restored that
+    # way): it is not a Python call and is not judged here.
+    if is_cls:
+      runs = [('construct', call(lambda: f(*a, **kx).r), lambda: w(*a, **kx).r, f'W({both}).r')]
+      if name == 'args' and s.va:
+        runs = []
+    else:
+      direct = call(f, *a, **kx)
+      runs = [('call-time', direct, lambda: w()(*a, **kx), f'W()({both})'),
+              ('bound+call-time', reference_two_stage(f, s, a, k, (), {name: v}, False)[1],
+               lambda: w(*a, **k)(**{name: v}), f'W({base})({extra})'),
+              ('bound+call-time[override]', reference_two_stage(f, s, a, k, (), {name: v}, True)[1],
+               lambda: w(*a, **k)(**{name: v}, override_args=True), f'W({base})({extra}, override_args=True)')]
+      if not (name == 'args' and s.va):
+        runs.append(('construction', direct, lambda: w(*a, **kx)(), f'W({both})()'))
+    for mode, want, thunk, src in runs:
+      if want is None:
+        continue
+      got = call(thunk)
+      rec.case(f'{fam}.keyword-named-like-{what}[sig:{_sigclass(s)}]',
+               (s.id, kind, mode, a, tuple(k), repr(v)), ok=agree(want, got),
+               message=f'{s.params}: {src} -> {got!r}; Python semantics -> {want!r}',
+               witness=_witness(prelude, 'import bounded.c18_functor as m\n'
+                                f'got = m.call(lambda: {src})\nassert m.agree({want!r}, got), got\n'))
+
+
+def posonly_sigs():
+  out = []
+  for n in (1, 2, 3):
+    for npo in range(1, n + 1):
+      for ndef in range(n + 1):
+        for va in (False, True):
+          for kwo in ((), (True,)):
+            for vk in (False, True):
+              out.append(Sig(n, ndef, va, kwo, vk, npo=npo))
+  return out
+
+
+def _posonly_cases(rec, s, kind, f, w, prelude, sh):
+  is_cls = kind in CLS_WRAPPERS
+  fam = 'class-wrapper' if is_cls else 'functor'
+  _check_signature(rec, s, kind, f, w, prelude, case_id=f'{fam}.positional-only-parameters')
+  for p, kws in sh:
+    a, k = mk_args(p, kws, 10)
+    src = _fmt_call(a, k)
+    if is_cls:
+      runs = [(call(lambda: f(*a, **k).r), lambda: w(*a, **k).r, f'W({src}).r', f'F({src}).r')]
+    else:
+      want = call(f, *a, **k)
+      runs = [(want, lambda: w()(*a, **k), f'W()({src})', f'F({src})'),
+              (want, lambda: w(*a, **k)(), f'W({src})()', f'F({src})')]
+      if a:
+        # positionals at construction, keywords later
+        runs.append((reference_two_stage(f, s, a, {}, (), k, False)[1], lambda: w(*a)(**k),
+                     f'W({_fmt_call(a, {})})({_fmt_call((), k)})', f'F({src})'))
+    for want, thunk, wsrc, fsrc in runs:
+      if want is None:
+        continue
+      got = call(thunk)
+      rec.case(f'{fam}.positional-only-parameters', (s.id, kind, wsrc), ok=agree(want, got),
+               message=f'{s.params}: {wsrc} -> {got!r}; {fsrc} -> {want!r}',
+               witness=_witness(prelude, 'import bounded.c18_functor as m\n'
+                                f'got = m.call(lambda: {wsrc})\nassert m.agree({want!r}, got), got\n'))
+
+
+def drv_keyword_names(tier, seed):
+  quick = tier == 'quick'
+  rec = Recorder(
+      'C18', 'keywords that are not named parameters (the names of *args / **kw); positional-only parameters',
+      scope=('240 signatures, one way of symbolizing a function (6 wrappers + 3 subclassed styles, '
+             'rotated) and one way of wrapping a class each: a call that Python accepts ('
+             + ('3' if quick else '12') + ' seeded per signature and keyword) plus the keyword `args=` / '
+             '`kw=` (value: list, int, tuple, [], None), given at call time to an unbound functor, at '
+             'call time after binding the rest (with/without override_args), at construction, to the '
+             'class constructor; oracle: the same Python call (TypeError without **kw, an entry of kw '
+             'with **kw); '
+             + ('40 seeded of ' if quick else 'all ') + '192 signatures with 1..3 positional-only '
+             'parameters (def f(a, /, ...)) x one function wrapper and one class wrapper: generated '
+             '__init__ signature, ' + ('10' if quick else '40') + ' seeded call shapes + every shape '
+             'passing a positional-only name by keyword, at call time / construction / split'))
+  r = rng(seed, 'c18-kwnames')
+  fn_kinds = FUNCTOR_KINDS
+  cls_kinds = list(CLS_WRAPPERS)
+  per = 3 if quick else 12
+  for i, sig in enumerate(all_sigs()):
+    kind = pick_kind(i, seed, sig, shift=2)
+    if kind in SUBCLASS_KINDS and sig.vk:      # a `_call()` body only reads the extras 'y' and 'z'
+      kind = 'pg.functor'
+    ckind = cls_kinds[(i + i // len(cls_kinds) + seed + 1) % len(cls_kinds)]
+    for kd in (kind, ckind):
+      s = sig.typed(is_typed_kind(kd) or 'auto_typing' in kd)
+      plan = []
+      for name in ('args', 'kw'):
+        for j in range(per):
+          a, k = _valid_shape(s, r)
+          vals = [77] if (int_values_only(kd) and s.vk) else COLLISION_VALUES
+          plan.append((name, a, k, vals[(i + j) % len(vals)]))
+      if kd in CLS_WRAPPERS:
+        built = try_build(rec, s, kd)
+        if built is not None:
+          _keyword_collisions(rec, s, kd, *built, plan)
+      else:
+        run_routine(rec, sig, kd, lambda rc, s_, kind_, f, w, prelude, plan=plan:
+                    _keyword_collisions(rc, s_, kind_, f, w, prelude, plan))
+  po = posonly_sigs()
+  if quick:
+    po = _pick(po, r, 40)
+  fnk = list(FN_WRAPPERS)
+  for i, sig in enumerate(po):
+    for kd in (fnk[(i + seed) % len(fnk)], cls_kinds[(i + seed) % len(cls_kinds)]):
+      s = sig.typed('auto_typing' in kd)
+      built = try_build(rec, s, kd)
+      if built is None:
+        continue
+      sh = _pick([x for x in shapes(s) if x[0] <= s.n + 1], r, 10 if quick else 40)
+      sh += [(p, tuple(kws)) for p in range(s.n + 1) for kws in
+             ([nm for nm in s.names if nm not in s.pos[:p]],
+              [nm for nm in s.names if nm not in s.pos[:p] and nm not in s.defaults],
+              list(s.names))]
+      sh = list(dict.fromkeys(sh))
+      _posonly_cases(rec, s, kd, *built, sh)
+  return rec.result()
+
+
+# ---------------------------------------------------------------------------
+# Callables that share one code object (or are one object) but differ in what
+# lives on the function object: defaults, keyword-only defaults, closure.
+# ---------------------------------------------------------------------------
+
+FN_SIBLING_FLAVORS = ('factory-def', 'lambda-in-loop', 'FunctionType-copy', 'defaults-reassigned')
+CLS_SIBLING_FLAVORS = ('factory-class', 'init-defaults-reassigned')
+SIBLING_FN_KINDS = list(FN_WRAPPERS) + ['as_functor']
+N_SIBLINGS = 3
+
+
+def sibling_defaults(sig, i):
+  return {nm: v - 100 * i for nm, v in sig.defaults.items()}
+
+
+def _sibling_source(sig, flavor):
+  """Source defining sib_(i) -> the i-th sibling callable (uses DS_ = per-sibling defaults)."""
+  lam = flavor == 'lambda-in-loop'
+  params = sig.params_src(lambda nm: f'd_[{nm!r}]', annotated=False if lam else None)
+  ret = f'({sig.ret}, free_)'
+  posd = [nm for nm in sig.pos if nm in sig.defaults]
+  kwd = [nm for nm in sig.kwonly if nm in sig.defaults]
+  setd = (f'  g_.__defaults__ = tuple(DS_[i_][n_] for n_ in {posd!r}) or None\n'
+          f'  g_.__kwdefaults__ = {{n_: DS_[i_][n_] for n_ in {kwd!r}}} or None\n')
+  if flavor in CLS_SIBLING_FLAVORS:
+    src = ('def make_(d_, free_):\n  class C_:\n'
+           f'    def __init__(self, {params}):\n      self.r = {ret}\n  return C_\n')
+    if flavor == 'factory-class':
+      return src + 'def sib_(i_):\n  return make_(DS_[i_], i_)\n'
+    return (src + 'B_ = make_(DS_[0], 0)\ndef sib_(i_):\n  g_ = B_.__init__\n' + setd + '  return B_\n')
+  if lam:
+    return (f'LS_ = [(lambda {params}: {ret}) for d_, free_ in zip(DS_, range(len(DS_)))]\n'
+            'def sib_(i_):\n  return LS_[i_]\n')
+  src = f'def make_(d_, free_):\n  def f_({params}):\n    return {ret}\n  return f_\n'
+  if flavor == 'factory-def':
+    return src + 'def sib_(i_):\n  return make_(DS_[i_], i_)\n'
+  if flavor == 'FunctionType-copy':
+    return (src + 'import types\nB_ = make_(DS_[0], 0)\ndef sib_(i_):\n'
+            '  if i_ == 0: return B_\n'
+            '  g_ = types.FunctionType(B_.__code__, B_.__globals__, B_.__name__, None, B_.__closure__)\n'
+            '  g_.__annotations__ = dict(B_.__annotations__); g_.__module__ = B_.__module__\n'
+            + setd + '  return g_\n')
+  assert flavor == 'defaults-reassigned'
+  return src + 'B_ = make_(DS_[0], 0)\ndef sib_(i_):\n  g_ = B_\n' + setd + '  return g_\n'
+
+
+_SIB_BUILT = {}
+
+
+def build_siblings(sig, kind, flavor, upto=N_SIBLINGS - 1):
+  """Creates and symbolizes siblings 0..upto, in that order; returns [(F_i, W_i)], prelude source.
+
+  The prelude defines FS / WS (lists); for kind 'as_functor' WS holds functor objects.
+  For the `*-reassigned` flavors all siblings are one object whose defaults were
+  re-assigned before each symbolization: only the last pair is meaningful.
+  """
+  key = (sig.id, kind, flavor, upto)
+  if key in _SIB_BUILT:
+    return _SIB_BUILT[key]
+  tag = ''.join(ch for ch in kind + flavor if ch.isalnum())
+  name = ('C_' if kind in CLS_WRAPPERS else 'f_') + sig.id.replace('~', '_') + '_' + tag
+  one_object = flavor.endswith('reassigned')
+  if kind == 'as_functor':
+    wsrc = 'pg.symbolic.as_functor(g_)'
+  else:
+    wsrc = (CLS_WRAPPERS if kind in CLS_WRAPPERS else FN_WRAPPERS)[kind].format(f='g_', spec=spec_src(sig))
+  ds = [sibling_defaults(sig, i) for i in range(N_SIBLINGS)]
+  prelude = (
+      'import pyglove as pg, sys, types, typing\n'
+      f"m_ = sys.modules.setdefault('{MOD}', types.ModuleType('{MOD}'))\n"
+      f"ns_ = {{'__name__': '{MOD}', 'pg': pg, 'Any': typing.Any, 'DS_': {ds!r}}}\n"
+      f'exec({_sibling_source(sig, flavor)!r}, ns_)\n'
+      'FS, WS = [], []\n'
+      f'for i_ in range({upto + 1}):\n'
+      "  g_ = ns_['sib_'](i_)\n"
+      + (f'  g_.__name__ = g_.__qualname__ = {name!r}\n' if one_object else
+         f"  g_.__name__ = g_.__qualname__ = {name!r} + '_s%d' % i_\n")
+      + '  m_.__dict__[g_.__name__] = g_\n'
+      f'  FS.append(g_); WS.append({wsrc})\n')
+  prelude = Prelude(prelude)
+  prelude.compact = ('import pyglove as pg, bounded.c18_functor as m\n'
+                     f'P_ = m.build_siblings({sig.ctor_src()}, {kind!r}, {flavor!r}, {upto})\n'
+                     'FS, WS = [p[0] for p in P_[0]], [p[1] for p in P_[0]]\n')
+  ns = {}
+  try:
+    exec(prelude, ns)  # pylint: disable=exec-used
+  except Exception as e:  # pylint: disable=broad-except
+    raise BuildError(f'{type(e).__name__}: {e}', prelude) from e
+  _SIB_BUILT[key] = (list(zip(ns['FS'], ns['WS'])), prelude)
+  return _SIB_BUILT[key]
+
+
+def _sibling_checks(rec, s, kind, flavor, i, f, w, prelude, sh, json_ok):
+  """Sibling i: symbolic form vs the sibling itself (its own defaults and closure)."""
+  is_cls = kind in CLS_WRAPPERS
+  fam = 'class-wrapper' if is_cls else 'functor'
+  base = f'{fam}.callables-sharing-code'
+  pre = Prelude(prelude + f'F, W = FS[{i}], WS[{i}]\n')
+  pre.compact = prelude.compact + f'F, W = FS[{i}], WS[{i}]\n'
+  what = f'sibling {i} ({flavor}) of ({s.params_src(lambda nm: "<" + nm + ">")})'
+  if kind != 'as_functor':
+    _check_signature(rec, s, kind, f, w, pre, case_id=f'{base}/init-signature')
+  for p, kws in sh:
+    a, k = mk_args(p, kws, 10)
+    src = _fmt_call(a, k)
+    key = (s.id, kind, flavor, i, p, kws)
+    x = None
+    if is_cls:
+      want = call(lambda: f(*a, **k).r)
+
+      def make():
+        nonlocal x
+        x = w(*a, **k)
+        return x.r
+      runs = [('construct', make, f'W({src}).r', f'F({src}).r')]
+    elif kind == 'as_functor':
+      want = call(f, *a, **k)
+      x = w
+      runs = [('supplied-at-call-time', lambda: w(*a, **k), f'W({src})', f'F({src})'),
+              ('clone', lambda: w.clone(deep=True)(*a, **k), f'W.clone(deep=True)({src})', f'F({src})')]
+    else:
+      want = call(f, *a, **k)
+
+      def ctor():
+        nonlocal x
+        x = w(*a, **k)
+        return x()
+      runs = [('bound-at-construction', ctor, f'W({src})()', f'F({src})'),
+              ('supplied-at-call-time', lambda: w()(*a, **k), f'W()({src})', f'F({src})')]
+    allok = True
+    for mode, thunk, wsrc, fsrc in runs:
+      got = call(thunk)
+      allok &= rec.case(f'{base}/{mode}/{_vs(want, got)}', key, ok=agree(want, got),
+                        message=f'{what}: {wsrc} -> {got!r}; {fsrc} -> {want!r}',
+                        witness=_witness(pre, 'import bounded.c18_functor as m\n'
+                                         f'assert m.agree(m.call(lambda: {fsrc}), m.call(lambda: {wsrc}))\n'))
+    if x is None or not allok or want[0] != 'ok':
+      continue
+    if is_cls:
+      exp = expected_init_args(f.__init__, s, (None,) + a, k)
+      exp.pop('self', None)
+      esrc = f'e = m.expected_init_args(F.__init__, None, *m.ak(None, {src})); e.pop("self")\n'
+    elif kind == 'as_functor':
+      exp = expected_init_args(f, s, (), {})
+      esrc = 'e = m.expected_init_args(F, None, (), {})\n'
+    else:
+      exp = expected_init_args(f, s, a, k)
+      esrc = f'e = m.expected_init_args(F, None, *m.ak({src}))\n'
+    xsrc = 'W' if kind == 'as_functor' else f'W({src})'
+    try:
+      rep = init_args_of(x)
+    except Exception as e:  # pylint: disable=broad-except
+      rep = f'{type(e).__name__}: {e}'
+    rec.case(f'{base}/sym_init_args', key, ok=same_init_args(rep, exp),
+             message=f'{what}: {xsrc}.sym_init_args = {rep!r}, want {exp!r}',
+             witness=_witness(pre, 'import bounded.c18_functor as m\n' + esrc
+                              + f'assert m.same_init_args(m.init_args_of({xsrc}), e)\n'))
+    if kind == 'as_functor':
+      continue
+    for name, csrc in _roundtrips(x):
+      if name.startswith('json') and not json_ok:
+        continue
+      tail = '.r' if is_cls else '()'
+      got = call(lambda: eval(f'({csrc}){tail}', {'x': x, 'pg': pg}))  # pylint: disable=eval-used
+      rec.case(f'{base}/{name}/{_vs(want, got)}', key, ok=agree(want, got),
+               message=f'{what}: x = W({src}); ({csrc}){tail} -> {got!r}; want {want!r}',
+               witness=_witness(pre, f'import bounded.c18_functor as m\nx = W({src})\n'
+                                f'got = m.call(lambda: ({csrc}){tail})\nassert m.agree({want!r}, got), got\n'))
+
+
+def _sibling_shapes(s, r, limit):
+  """Call shapes: only the required parameters (every default is used), all of them, seeded others."""
+  req_p = len([nm for nm in s.pos if nm not in s.defaults])
+  req_k = tuple(nm for nm in s.kwonly if nm not in s.defaults)
+  sh = [(req_p, req_k), (0, tuple(nm for nm in s.names if nm not in s.defaults)),
+        (s.n, tuple(s.kwonly))]
+  sh += _pick([x for x in shapes(s) if 'z' not in x[1] and x[0] <= s.n + (1 if s.va else 0)], r, limit)
+  return list(dict.fromkeys(sh))
+
+
+def drv_callables_sharing_code(tier, seed):
+  quick = tier == 'quick'
+  rec = Recorder(
+      'C18', 'callables that share a code object (or are one object) but have their own defaults / closure',
+      scope=(('48 seeded of the ' if quick else 'all ') + 'signatures with >= 1 default among the 240; '
+             f'{N_SIBLINGS} sibling callables per signature with different positional defaults, '
+             'keyword-only defaults and closure value, made by: a factory with a nested def, lambdas '
+             'in a comprehension, types.FunctionType copies of one code object, one function whose '
+             '__defaults__/__kwdefaults__ are re-assigned before it is symbolized again; classes made '
+             'by a factory / whose __init__ defaults are re-assigned; all siblings symbolized first '
+             '(6 function wrappers + as_functor, 4 class wrappers; '
+             + ('one function kind and one class kind per signature' if quick else 'all kinds')
+             + '), then each compared with its own original: generated __init__ signature, calls '
+             'using every default / none / ' + ('4' if quick else '16') + ' seeded shapes at '
+             'construction and at call time, sym_init_args, clone / JSON copies; the same function '
+             'object symbolized by several wrappers in a row (typed before untyped and back)'))
+  r = rng(seed, 'c18-siblings')
+  sigs = [s for s in all_sigs() if s.defaults]
+  if quick:
+    sigs = _pick(sigs, r, 48)
+  cls_kinds = list(CLS_WRAPPERS)
+  limit = 4 if quick else 16
+  for i, sig in enumerate(sigs):
+    fk = SIBLING_FN_KINDS[(i + seed) % len(SIBLING_FN_KINDS)]
+    ck = cls_kinds[(i + seed) % len(cls_kinds)]
+    todo = ([(fk, FN_SIBLING_FLAVORS[(i // 2 + seed) % len(FN_SIBLING_FLAVORS)]),
+             (ck, CLS_SIBLING_FLAVORS[(i // 3 + seed) % len(CLS_SIBLING_FLAVORS)])] if quick else
+            [(k, fl) for k in SIBLING_FN_KINDS for fl in FN_SIBLING_FLAVORS]
+            + [(k, fl) for k in cls_kinds for fl in CLS_SIBLING_FLAVORS])
+    for kind, flavor in todo:
+      s = sig.typed('auto_typing' in kind and flavor != 'lambda-in-loop')
+      sh = _sibling_shapes(s, r, limit)
+      if flavor.endswith('reassigned'):
+        # one object: each symbolic form is judged right after it was made.
+        stages = [(u, [u]) for u in range(N_SIBLINGS)]
+      else:
+        stages = [(N_SIBLINGS - 1, list(range(N_SIBLINGS)))]
+      for upto, which in stages:
+        try:
+          pairs, prelude = build_siblings(s, kind, flavor, upto)
+        except BuildError as e:
+          rec.case(f'{_family(kind) if kind != "as_functor" else "functor"}.symbolizing-a-valid-callable-fails/{kind}',
+                   (s.id, kind, flavor), ok=False, message=f'{s.params} ({flavor}): {e.args[0]}', witness=e.args[1])
+          continue
+        for j in which:
+          _sibling_checks(rec, s, kind, flavor, j, pairs[j][0], pairs[j][1], prelude, sh, json_ok=True)
+  # One function object symbolized several times in a row by different wrappers.
+  orders = list(itertools.permutations(['pg.functor(auto_typing)', 'pg.functor', 'pg.functor(spec)', 'pg.symbolize'], 3))
+  many = _pick([s for s in all_sigs() if not s.va or True], r, 12 if quick else 120)
+  for i, sig in enumerate(many):
+    order = orders[(i + seed) % len(orders)]
+    s = sig.typed(True)
+    src = s.fn_src('g_')
+    name = 'f_' + s.id + '_many' + str((i + seed) % len(orders))
+    prelude = Prelude(
+        'import pyglove as pg, sys, types, typing\n'
+        f"m_ = sys.modules.setdefault('{MOD}', types.ModuleType('{MOD}'))\n"
+        f"ns_ = {{'__name__': '{MOD}', 'pg': pg, 'Any': typing.Any}}\n"
+        f'exec({src!r}, ns_)\ng_ = ns_["g_"]; g_.__name__ = g_.__qualname__ = {name!r}\n'
+        'm_.__dict__[g_.__name__] = g_\n'
+        'FS, WS = [], []\n'
+        + ''.join(f'FS.append(g_); WS.append({FN_WRAPPERS[k].format(f="g_", spec=spec_src(s))})\n' for k in order))
+    ns = {}
+    try:
+      exec(prelude, ns)  # pylint: disable=exec-used
+    except Exception as e:  # pylint: disable=broad-except
+      rec.case('functor.symbolizing-a-valid-callable-fails/one-callable-many-wrappers', (s.id, order), ok=False,
+               message=f'{s.params}: {order}: {type(e).__name__}: {e}', witness=prelude)
+      continue
+    f = ns['g_']
+    for j, kind in enumerate(order):
+      w = ns['WS'][j]
+      pre = Prelude(prelude + f'F, W = FS[{j}], WS[{j}]\n')
+      for t, (p, kws) in enumerate(_sibling_shapes(s, r, 3)):
+        a, k = mk_args(p, kws, 10)
+        for vtag, a, k in with_value_variants(s, kind, t, a, k, r):
+          want = call(f, *a, **k)
+          src2 = _fmt_call(a, k)
+          for mode, thunk, wsrc in (('bound-at-construction', lambda: w(*a, **k)(), f'W({src2})()'),
+                                    ('supplied-at-call-time', lambda: w()(*a, **k), f'W()({src2})')):
+            got = call(thunk)
+            rec.case(f'functor.one-callable-many-wrappers/{mode}{vtag}/{_vs(want, got)}',
+                     (s.id, order, j, p, kws, vtag and src2), ok=agree(want, got),
+                     message=(f'{s.params} symbolized by {" then ".join(order)}; wrapper #{j} ({kind}): '
+                              f'{wsrc} -> {got!r}; F({src2}) -> {want!r}'),
+                     witness=_witness(pre, 'import bounded.c18_functor as m\n'
+                                      f'assert m.agree(m.call(F, {src2}), m.call(lambda: {wsrc}))\n'))
+  return rec.result()
+
+
 DRIVERS = [drv_functor_single_stage, drv_functor_two_stage, drv_functor_late_binding,
-           drv_class_wrappers, drv_functor_values_and_reentrancy]
+           drv_class_wrappers, drv_functor_values_and_reentrancy, drv_keyword_names,
+           drv_callables_sharing_code]
 
 
 def replay(rec):
